@@ -79,6 +79,10 @@ fn win_core_redirect() {
         run(&mut c, 4);
         assert!(!c.bad, "VERIF[C01]: patched entry/trampoline do not decode to a chain of branches");
         assert!(c.pc == t && !c.returned, "VERIF[C01]: control does not arrive at the fake");
+        kani::cover!(sim::ENT[0].bytes[0] == 0x48, "COVER: 12-byte entry form");
+        kani::cover!(sim::ENT[0].bytes[0] == 0xE9, "COVER: 5-byte entry form");
+        kani::cover!(sim::ENT[0].bytes[0] == 0x48 && (f & 4095) > 4096 - 12, "COVER: 12-byte entry straddles a page boundary");
+        kani::cover!(j.abs_diff(f) > 0x7FFF_0000, "COVER: trampoline almost 2 GiB away");
         assert!(transparent_except_rax(&c0, &c), "VERIF[C13]: a register other than rax, or the stack pointer, differs on arrival at the fake");
         assert!(!c.fetched_dirty && sim::all_clean(), "VERIF[C17]: bytes written during installation are not covered by a later flush");
         let plen: usize = if sim::ENT[0].bytes[0] == 0xE9 { 5 } else { 12 };
@@ -89,10 +93,6 @@ fn win_core_redirect() {
             }
             k += 1;
         }
-        kani::cover!(sim::ENT[0].bytes[0] == 0x48, "COVER: 12-byte entry form");
-        kani::cover!(sim::ENT[0].bytes[0] == 0xE9, "COVER: 5-byte entry form");
-        kani::cover!(sim::ENT[0].bytes[0] == 0x48 && (f & 4095) > 4096 - 12, "COVER: 12-byte entry straddles a page boundary");
-        kani::cover!(j.abs_diff(f) > 0x7FFF_0000, "COVER: trampoline almost 2 GiB away");
         drop(g);
         let mut k = 0;
         while k < 16 {
